@@ -17,7 +17,7 @@ from simkit.core import HarnessError
 
 PROP = "C37"
 LEVEL = "exploration"
-TIERS = {"quick": dict(runs=6000, wall=900, chunk=60), "thorough": dict(runs=1000000, wall=5400, chunk=400)}
+TIERS = {"quick": dict(runs=6000, wall=1400, chunk=60), "thorough": dict(runs=1000000, wall=5400, chunk=400)}
 TIME_UNIT = "file-system events (mkdir / create / truncate / remove) -- no clock in the code under test"
 RULE = ("one evaluation = one run of export_apps_to_format on a generated DEX with adversarial class and method names, in a "
         "seeded simulated environment (output directory form, pre-existing contents, scripted stdin, injected file-system "
